@@ -861,6 +861,9 @@ class Generator:
         self.allow_sample = True
         # persisted partitions are often views (iloc slices); same tokenizer sensitivity once pickled
         self.allow_persist = True
+        # groupby: keep null-bearing key columns and dropna=False together more often (C10: the knobs decide which of the
+        # chunk / combine / aggregate steps see the null group)
+        self.prefer_null_keys = False
         self.source_kinds = ("from_pandas", "from_pandas", "from_pandas", "from_map", "from_delayed", "from_array")
         self.suspects = 0
 
@@ -1540,6 +1543,13 @@ class Generator:
         if not keys:
             return None
         by = self.rng.sample(keys, 1 if self.rng.random() < 0.7 else min(2, len(keys)))
+        keep_nulls = False
+        if self.prefer_null_keys and self.rng.random() < 0.5:
+            nullable = {c for t in self.recipe["tables"].values() for c, k in t["cols"].items() if k in ("float_nan", "str_none")}
+            cands = [c for c in keys if c in nullable]
+            if cands:
+                by = [self.rng.choice(cands)]
+                keep_nulls = True
         vals = self.no_suffix_twins([c for c in self.cols_of(m, NUMERIC) if c not in by])
         op = {"op": "groupby_agg", "src": m.id, "by": by}
         if any(m.cols[c] == "cat" for c in by):
@@ -1561,7 +1571,7 @@ class Generator:
                     op["columns"] = op["columns"][0]
         if self.rng.random() < 0.2:
             op["sort"] = False
-        if self.rng.random() < 0.3:
+        if self.rng.random() < 0.3 or keep_nulls:
             op["dropna"] = False
         names = ["split_out", "split_every", "shuffle_method"]
         if op.get("fn") == "size" or op.get("observed") is False:
